@@ -23,6 +23,12 @@ type e2eSession struct {
 	ep   *exporter.ExportingProcess
 	msgs chan *entities.Message
 	done chan struct{}
+	// the application's recycled set (paths "0r" / "1r" / "2r": ResetSet + PrepareSet per send)
+	reused entities.Set
+	// every message delivered in this session with its rendering at delivery time: a consumer may keep
+	// a message while later ones arrive, and it must stay what was delivered
+	kept     []*entities.Message
+	keptToks []string
 }
 
 var e2e *e2eSession
@@ -123,8 +129,17 @@ func engE2E(a []string) string {
 		e2e = s
 		return "ok"
 	case "close":
+		res := "ok"
+		if e2e != nil {
+			for i, m := range e2e.kept {
+				if msgToken(m) != e2e.keptToks[i] {
+					res = fmt.Sprintf("mutated %d/%d", i+1, len(e2e.kept))
+					break
+				}
+			}
+		}
 		e2eClose()
-		return "ok"
+		return res
 	case "send":
 		if len(a) != 5 || e2e == nil {
 			return "bad-op"
@@ -134,7 +149,18 @@ func engE2E(a []string) string {
 		if !ok || err != nil {
 			return "bad-op"
 		}
-		set := entities.NewSet(false)
+		path := a[1]
+		var set entities.Set
+		if strings.HasSuffix(path, "r") {
+			path = strings.TrimSuffix(path, "r")
+			if e2e.reused == nil {
+				e2e.reused = entities.NewSet(false)
+			}
+			e2e.reused.ResetSet()
+			set = e2e.reused
+		} else {
+			set = entities.NewSet(false)
+		}
 		if err := set.PrepareSet(st, uint16(setid)); err != nil {
 			return "bad-op"
 		}
@@ -151,7 +177,7 @@ func engE2E(a []string) string {
 			if err != nil {
 				return "bad-op"
 			}
-			if err := addByPath(set, a[1], 0, uint16(tid), elems); err != nil {
+			if err := addByPath(set, path, 0, uint16(tid), elems); err != nil {
 				return "builderr"
 			}
 		}
@@ -176,7 +202,10 @@ func engE2E(a []string) string {
 			if ip := net.ParseIP(m.GetExportAddress()); ip == nil || !ip.IsLoopback() {
 				addrOK = "addrbad:" + m.GetExportAddress()
 			}
-			return fmt.Sprintf("sent %d %s %s %s", n, strings.TrimPrefix(msgToken(m), "ok "), tk, addrOK)
+			tok := msgToken(m)
+			e2e.kept = append(e2e.kept, m)
+			e2e.keptToks = append(e2e.keptToks, tok)
+			return fmt.Sprintf("sent %d %s %s %s", n, strings.TrimPrefix(tok, "ok "), tk, addrOK)
 		case <-time.After(3 * time.Second):
 			return fmt.Sprintf("sent %d none", n)
 		}
